@@ -21,6 +21,7 @@ import KadDHT.Driver.C12
 import KadDHT.Driver.C05
 import KadDHT.Driver.C20
 import KadDHT.Driver.C17
+import KadDHT.Driver.C14
 open KadDHT.Driver
 
 def main (args : List String) : IO UInt32 := do
@@ -28,6 +29,8 @@ def main (args : List String) : IO UInt32 := do
   | ["C18"] => runPure C18.handle; return 0
   | ["C18v"] => runPure C18v.handle; return 0
   | ["C19"] => runLoop C19.step {}; return 0
+  | ["C14"] => runPure C14.handle; return 0
+  | ["C14v"] => runPure C14.verdict; return 0
   | ["C17"] => runLoop C17.step {}; return 0
   | ["C17v"] => runLoop C17.verdict {}; return 0
   | ["C20"] => runLoop C20.step {}; return 0
